@@ -317,3 +317,99 @@ class WriteTableDependencyOrder(Contract):
         return all(order.index(dep) < order.index(t) for t, deps in a._deps.items() for dep in deps if dep in a._deps)
 
     ensures = [prop("dependencies-first-each-table-once", lambda a, old, r: WriteTableDependencyOrder._post(a))]
+
+
+# -- TTCollection.save: same discipline as TTFont.save ---------------------------------------------
+
+@contract
+class TTCSaveNeverOpensDestinationBeforeSuccess(Contract):
+    """TTCollection.save(path) for 2 member fonts, TTC v1 / v2 with DSIG: the destination is
+    opened (mode 'wb') exactly once, after every member and the DSIG have been compiled; if a
+    member's _save or the DSIG compile raises, open() was never called on the destination."""
+    module = "fontTools.ttLib.ttCollection"
+    qualname = "TTCollection.save"
+    props = ("C20",)
+    shadow_mode = "function"
+    variants = tuple((where, v2) for where in ("ok", "first-fails", "second-fails", "dsig-fails") for v2 in (False, True)
+                     if not (where == "dsig-fails" and not v2))
+    level = "PF"
+    expect_exceptional_only = tuple(v for v in variants if v[0] != "ok")
+
+    def rebind(self):
+        outer = self
+
+        class _F:
+            def __init__(self, path, mode):
+                self.path, self.mode = path, mode
+                outer._log.append(("open", path, mode))
+
+            def __enter__(self):
+                return self
+
+            def __exit__(self, *a):
+                return False
+
+            def write(self, data):
+                outer._log.append(("write", self.path, len(data)))
+
+            def close(self):
+                pass
+
+            def seek(self, *a):
+                outer._log.append(("seek-on-destination",))
+
+            def tell(self):
+                return 0
+
+        return {"open": lambda path, mode="r", *a, **k: _F(path, mode)}
+
+    def args(self, S, variant):
+        from fontTools.ttLib import TTCollection
+        self._where, v2 = variant
+        self._log = []
+        outer = self
+
+        class Member:
+            recalcTimestamp = False
+
+            def __init__(self, i):
+                self.i = i
+
+            def __contains__(self, tag):
+                return False
+
+            def _save(self, file, tableCache=None):
+                outer._log.append(("_save", self.i))
+                if outer._where == ("first-fails", "second-fails")[self.i:self.i + 1][0] if self.i < 2 else False:
+                    raise _Boom("member %d" % self.i)
+                file.write(b"MEMBER%d" % self.i)
+
+        class Dsig:
+            def compile(self, ttFont):
+                outer._log.append(("dsig",))
+                if outer._where == "dsig-fails":
+                    raise _Boom("dsig")
+                return b"DSIGDATA"
+
+        ttc = TTCollection()
+        ttc.fonts = [Member(0), Member(1)]
+        if v2:
+            ttc.dsig = Dsig()
+        return dict(self=ttc, file="dest.ttc")
+
+    def call(self, f, a):
+        try:
+            return f(a.self, a.file)
+        finally:
+            a._log = list(self._log)
+
+    @property
+    def raises(self):
+        return {_Boom: lambda a, self=self: self._where != "ok" and not [e for e in a._log if e[0] == "open"]}
+
+    ensures = [prop("destination-opened-once-after-all-members-compiled", lambda a, old, r: (
+        [e[:3] for e in a._log if e[0] == "open"] == [("open", "dest.ttc", "wb")]
+        and all(a._log.index(e) < a._log.index(("open", "dest.ttc", "wb")) for e in a._log if e[0] in ("_save", "dsig"))
+        and [e[1] for e in a._log if e[0] == "_save"] == [0, 1]
+        and len([e for e in a._log if e[0] == "write"]) == 1
+        and ("seek-on-destination",) not in a._log))]
